@@ -125,5 +125,28 @@ theorem update_whitelist_as_modelled : Generated.updateWhitelist =
     ["LastRewardChangeTime", "RewardChangeInterval", "RewardChangeRate", "RewardWeight", "RewardWeightRange", "TakeRate"] := by
   decide
 
+/-- fact (regenerated from keeper/msg_server.go on every run): the validation guards of all eight message handlers — their
+    text, hence every comparator, constant and operand, and their order — are the ones the model's `msg*` functions were
+    written from. An edit to any guard (`LTE(ZeroInt)` → `LTE(OneInt)`, `IsZero` → `IsNil`, a dropped or reordered check)
+    breaks this `decide` without any trace having to exercise it -/
+theorem msg_guards_as_modelled : Generated.msgGuards = [
+  ("Delegate", ["!msg.Amount.Amount.GT(math.ZeroInt())"]),
+  ("Redelegate", ["msg.Amount.Amount.LTE(math.ZeroInt())"]),
+  ("Undelegate", ["msg.Amount.Amount.LTE(math.ZeroInt())"]),
+  ("ClaimDelegationRewards", ["msg.Denom == \"\""]),
+  ("UpdateParams", ["msg.Params.TakeRateClaimInterval <= 0", "m.GetAuthority() != msg.Authority"]),
+  ("CreateAlliance", ["msg.Denom == \"\"", "msg.RewardWeight.IsNil() || msg.RewardWeight.LT(math.LegacyZeroDec())", "msg.RewardWeightRange.Min.IsNil() || msg.RewardWeightRange.Min.LT(math.LegacyZeroDec()) ||\n\tmsg.RewardWeightRange.Max.IsNil() || msg.RewardWeightRange.Max.LT(math.LegacyZeroDec())", "msg.RewardWeightRange.Min.GT(msg.RewardWeightRange.Max)", "msg.RewardWeight.LT(msg.RewardWeightRange.Min) || msg.RewardWeight.GT(msg.RewardWeightRange.Max)", "msg.TakeRate.IsNil() || msg.TakeRate.IsNegative() || msg.TakeRate.GTE(math.LegacyOneDec())", "msg.RewardChangeRate.IsZero() || msg.RewardChangeRate.IsNegative()", "msg.RewardChangeInterval < 0", "m.GetAuthority() != msg.Authority", "found"]),
+  ("UpdateAlliance", ["msg.Denom == \"\"", "msg.RewardWeight.IsNil() || msg.RewardWeight.LT(math.LegacyZeroDec())", "msg.TakeRate.IsNil() || msg.TakeRate.IsNegative() || msg.TakeRate.GTE(math.LegacyOneDec())", "msg.RewardChangeRate.IsZero() || msg.RewardChangeRate.IsNegative()", "msg.RewardChangeInterval < 0", "m.GetAuthority() != msg.Authority", "!found", "asset.RewardWeightRange.Min.GT(msg.RewardWeight) || asset.RewardWeightRange.Max.LT(msg.RewardWeight)"]),
+  ("DeleteAlliance", ["msg.Denom == \"\"", "m.GetAuthority() != msg.Authority", "!found", "asset.TotalTokens.GT(math.ZeroInt())"])
+] := rfl
+
+/-! ## the complete list of failure modes of the governance messages -/
+
+/-- for EVERY state and every field value: a failing `MsgCreateAlliance`, `MsgUpdateAlliance`, `MsgDeleteAlliance` or
+    `MsgUpdateParams` fails with one of `govModes` (proof: AllianceProofs/FailModesGov) -/
+theorem governance_failure_modes (op : Op) (w : World) (e : Err)
+    (hop : match op with | .createAlliance .. | .updateAlliance .. | .deleteAlliance .. | .updateParams .. => True | _ => False)
+    (h : (step op w).1 = .error e) : e ∈ govModes := gov_failure_modes op w e hop h
+
 end C16
 end Alliance
